@@ -21,6 +21,11 @@ def newDataHelpers : List String :=
    "DropWhile", "Take", "TakeLast", "Tail", "Reverse", "Prepend", "Partition", "SplitEvery", "GroupBy", "UniqBy", "Zip",
    "Range", "Keys", "Values", "Merge", "SliceToMap", "DuplicateSlice", "DuplicateMap"]
 
+/-- helpers whose doc comment promises NEW storage ("returns a new list/map", "creates a new slice/map",
+    "Return a new Slice/Map") and whose current code indeed allocates it -/
+def docNewHelpers : List String :=
+  ["Dedupe", "DropEq", "DropWhile", "Flatten", "Merge", "Zip", "GroupBy", "DuplicateSlice", "DuplicateMap"]
+
 /-- helpers that return a scalar / boolean -/
 def queryHelpers : List String :=
   ["Reduce", "Head", "Min", "Max", "MinMax", "Every", "Some", "Exists", "IsEqual", "IsEqualMap", "IsDistinct"]
